@@ -47,7 +47,7 @@ const vC18Deadline = 20 * time.Second
 type vC18Gate struct {
 	mu      sync.Mutex
 	parked  bool
-	open    bool // true: do not park (shutdown in progress / gate not used)
+	open    bool            // true: do not park (shutdown in progress / gate not used)
 	release []chan struct{} // one per parked goroutine (two servers append in one process)
 }
 
@@ -433,10 +433,10 @@ type vC18Run struct {
 	order []string
 	// committed entries never change: cache (also covers compacted prefixes and
 	// the time the server is down)
-	rlog  []vC18Entry
-	first int64
-	snap  int64
-	pub   []vC18Ev
+	rlog         []vC18Entry
+	first        int64
+	snap         int64
+	pub          []vC18Ev
 	seenPubFails int64
 	// A second CLUSTER (one server "f", its own Raft log, its own namespace) on the same
 	// NATS deployment.  When the behaviour has one, "f" runs the NATS server and the
@@ -871,6 +871,17 @@ func (r *vC18Run) node(step map[string]interface{}) *vC18Node {
 	return n
 }
 
+// number of PUBLISH_ACTIVITY entries in the committed log read so far
+func (r *vC18Run) countRecords() int {
+	k := 0
+	for _, e := range r.rlog {
+		if e.K == "P" {
+			k++
+		}
+	}
+	return k
+}
+
 // lastPublished as replicated: pi of the last PUBLISH_ACTIVITY entry
 func (r *vC18Run) lastRecorded() int64 {
 	for i := len(r.rlog) - 1; i >= 0; i-- {
@@ -970,17 +981,21 @@ func (r *vC18Run) step(step map[string]interface{}) (ev vC18Event) {
 	case "RecordPublished":
 		n := r.node(step)
 		focus = n
+		// the step is over when the record has been COMMITTED AND APPLIED (one more
+		// PUBLISH_ACTIVITY entry in the log store and the in-memory lastPublished is what
+		// it names) or has failed - whatever the dispatcher believed it had published
 		r.state(n)
-		want := int64(0)
-		if len(r.pub) > 0 {
-			want = r.pub[len(r.pub)-1].ID
-		}
+		pBefore := r.countRecords()
 		before := atomic.LoadInt64(&n.recFails)
 		if !n.gate.releaseOne() {
 			vC18Fail("RecordPublished: dispatcher of %s is not parked", n.id)
 		}
 		vC18Wait("lastPublished record", func() bool {
-			return int64(n.srv.activity.LastPublishedRaftIndex()) >= want || atomic.LoadInt64(&n.recFails) > before
+			if atomic.LoadInt64(&n.recFails) > before {
+				return true
+			}
+			r.readRaftLog(n)
+			return r.countRecords() > pBefore && int64(n.srv.activity.LastPublishedRaftIndex()) == r.lastRecorded()
 		})
 	case "RecordFail":
 		// only reachable for a dispatcher whose server lost the leadership
